@@ -1229,9 +1229,10 @@ carquet_status_t carquet_read_next_page(
     int16_t* def_levels,
     int16_t* rep_levels,
     int64_t* values_read,
+    int64_t* non_null_read,
     carquet_error_t* error) {
 
-    if (!reader || !values || !values_read) {
+    if (!reader || !values || !values_read || !non_null_read) {
         CARQUET_SET_ERROR(error, CARQUET_ERROR_INVALID_ARGUMENT, "NULL argument");
         return CARQUET_ERROR_INVALID_ARGUMENT;
     }
@@ -1248,6 +1249,7 @@ carquet_status_t carquet_read_next_page(
         if (status != CARQUET_OK) {
             return status;
         }
+        reader->page_non_null_read = 0;
     }
 
     /* Calculate how many values to return from the current page */
@@ -1257,11 +1259,24 @@ carquet_status_t carquet_read_next_page(
         to_copy = available;
     }
 
+    /* decoded_values holds only the non-null values of the page (dense), so it is
+     * indexed by the number of non-null values consumed so far, not by the row, and
+     * only the non-null values among the to_copy rows are copied. */
+    int32_t non_null = to_copy;
+    if (reader->max_def_level > 0) {
+        non_null = 0;
+        for (int32_t i = 0; i < to_copy; i++) {
+            if (reader->decoded_def_levels[reader->page_values_read + i] == reader->max_def_level) {
+                non_null++;
+            }
+        }
+    }
+
     /* Copy values from decoded buffers */
     size_t value_size = get_value_size(reader->type, reader->type_length);
-    size_t offset = (size_t)reader->page_values_read * value_size;
+    size_t offset = (size_t)reader->page_non_null_read * value_size;
 
-    memcpy(values, (uint8_t*)reader->decoded_values + offset, (size_t)to_copy * value_size);
+    memcpy(values, (uint8_t*)reader->decoded_values + offset, (size_t)non_null * value_size);
 
     if (def_levels) {
         memcpy(def_levels, reader->decoded_def_levels + reader->page_values_read,
@@ -1274,8 +1289,10 @@ carquet_status_t carquet_read_next_page(
 
     /* Update state */
     reader->page_values_read += to_copy;
+    reader->page_non_null_read += non_null;
     reader->values_remaining -= to_copy;
     *values_read = to_copy;
+    *non_null_read = non_null;
 
     return CARQUET_OK;
 }
